@@ -155,7 +155,8 @@ impl Binomial {
                 let s = p / q;
                 Method::Binv(
                     Binv {
-                        r: q.powf(n as f64),
+                        // q^n via ln(1 - p): q = 1 - p is rounded, and that error is amplified n-fold
+                        r: (n as f64 * (-p).ln_1p()).exp(),
                         s,
                         a: (n as f64 + 1.0) * s,
                         n,
